@@ -61,7 +61,14 @@ Definition table_before_989b1ee : table := {|
 Definition mkobj (name : text) (parent : option nat) (contents : list nat) (k : okind) (p : privacy)
            (mro subs : list nat) (bases : list (option nat)) (m : option nat) : obj :=
   {| o_name := name; o_parent := parent; o_contents := contents; o_kind := k; o_priv := p; o_doc := true;
-     o_mro := mro; o_subclasses := subs; o_bases := bases; o_module := m |}.
+     o_mro := mro; o_subclasses := subs; o_bases := bases; o_docsource := None; o_xrefs := []; o_sum_xrefs := [];
+     o_module := m |}.
+
+(* an object whose rendered docstring comes from `src` and cross-references `xr` *)
+Definition with_doc (o : obj) (src : nat) (xr : list nat) : obj :=
+  {| o_name := o_name o; o_parent := o_parent o; o_contents := o_contents o; o_kind := o_kind o; o_priv := o_priv o;
+     o_doc := o_doc o; o_mro := o_mro o; o_subclasses := o_subclasses o; o_bases := o_bases o;
+     o_docsource := Some src; o_xrefs := xr; o_sum_xrefs := xr; o_module := o_module o |}.
 
 (* m.py:  def f(): ...  def f(): ...   -- the first `f` lives on in allobjects as "m.f 0" *)
 Definition w_dup : registry := {|
@@ -96,7 +103,7 @@ Definition w_example : registry := {|
               mkobj [95%N; 109%N] (Some 1) [] KFunction PRIVATE [] [] [] (Some 0);         (* 2 p.C._m *)
               mkobj [104%N] (Some 1) [] KFunction HIDDEN [] [] [] (Some 0);                (* 3 p.C.h *)
               mkobj [115%N] (Some 0) [5] KModule PRIVATE [] [] [] (Some 4);                (* 4 p.s *)
-              mkobj [102%N] (Some 4) [] KFunction PUBLIC [] [] [] (Some 4) ];              (* 5 p.s.f *)
+              with_doc (mkobj [102%N] (Some 4) [] KFunction PUBLIC [] [] [] (Some 4)) 5 [1; 3; 2] ]; (* 5 p.s.f  L{C}, L{C.h}, L{C._m} *)
   r_roots := [0]; r_all := [0; 1; 2; 3; 4; 5]; r_root_names := [[112%N]] |}.
 
 (* m.py:  class Base: def target(self) ; def meth(self): """L{target}"""     class Sub(Base): def meth(self): pass *)
@@ -104,7 +111,22 @@ Definition w_inherit : registry := {|
   r_objs := [ mkobj [109%N] None [1; 4] KModule PUBLIC [] [] [] (Some 0);                                  (* 0 m *)
               mkobj [66%N] (Some 0) [2; 3] KClass PUBLIC [1] [4] [] (Some 0);                              (* 1 m.B *)
               mkobj [116%N] (Some 1) [] KFunction PUBLIC [] [] [] (Some 0);                                (* 2 m.B.t *)
-              mkobj [120%N] (Some 1) [] KFunction PUBLIC [] [] [] (Some 0);                                (* 3 m.B.x *)
+              with_doc (mkobj [120%N] (Some 1) [] KFunction PUBLIC [] [] [] (Some 0)) 3 [2];               (* 3 m.B.x  L{t} *)
               mkobj [83%N] (Some 0) [5] KClass PUBLIC [4; 1] [] [Some 1] (Some 0);                         (* 4 m.S *)
-              mkobj [120%N] (Some 4) [] KFunction PUBLIC [] [] [] (Some 0) ];                              (* 5 m.S.x *)
+              with_doc (mkobj [120%N] (Some 4) [] KFunction PUBLIC [] [] [] (Some 0)) 3 [2] ];             (* 5 m.S.x  inherits *)
   r_roots := [0]; r_all := [0; 1; 2; 3; 4; 5]; r_root_names := [[109%N]] |}.
+
+(* m.py: class B: ...  class C(B): ...  class B: ...   -- C's base is the FIRST B, which lives on as "m.B 0" *)
+Definition w_dup_base : registry := {|
+  r_objs := [ mkobj [109%N] None [1; 2] KModule PUBLIC [] [] [] (Some 0);                              (* 0 m *)
+              mkobj [67%N] (Some 0) [] KClass PUBLIC [1; 3] [] [Some 3] (Some 0);                      (* 1 m.C *)
+              mkobj [66%N] (Some 0) [] KClass PUBLIC [2] [] [] (Some 0);                               (* 2 m.B *)
+              mkobj [66%N; 32%N; 48%N] (Some 0) [] KClass PUBLIC [3] [1] [] (Some 0) ];                (* 3 m.B 0 *)
+  r_roots := [0]; r_all := [0; 3; 1; 2]; r_root_names := [[109%N]] |}.
+
+(* p/__init__.py, p/__main__.py   with --privacy HIDDEN:p.__main__ : System.privacyClass says HIDDEN *)
+Definition w_main : registry := {|
+  r_objs := [ mkobj [112%N] None [1] KPackage PUBLIC [] [] [] (Some 0);
+              mkobj t_main (Some 0) [2] KModule HIDDEN [] [] [] (Some 1);
+              mkobj [102%N] (Some 1) [] KFunction PUBLIC [] [] [] (Some 1) ];
+  r_roots := [0]; r_all := [0; 1; 2]; r_root_names := [[112%N]] |}.
